@@ -2,6 +2,9 @@ use serde_json::{json, Value};
 use std::time::Instant;
 use vp::engine::*;
 
+#[global_allocator]
+static ALLOC: vp::alloc::Counting = vp::alloc::Counting;
+
 fn usage() -> ! {
     eprintln!("usage: vp <PROPERTY-ID> quick|thorough | vp <PROPERTY-ID> --replay <file>");
     std::process::exit(2)
@@ -9,6 +12,7 @@ fn usage() -> ! {
 
 fn main() {
     vp::panics::install_hook();
+    vp::alloc::mark_installed();
     let args: Vec<String> = std::env::args().skip(1).collect();
     if args.len() < 2 {
         usage();
